@@ -105,6 +105,7 @@ def specs(rng, tier, wid, nw, env):
         elif c < 0.85: yield ('kron', rng.randint(0, 6), rng.randint(0, 6), rng.choice(['rand', 'small', 'special', 'pow2', 'multiple', 'zero', 'cf-B']), rng.randint(0, 3), rng.getrandbits(48))
         else: yield ('ui', rng.randint(0, 9), rng.randint(0, 1), rng.choice(['rand', 'multiple', 'zero', 'pow2']), rng.getrandbits(48))
 
+LEGENDRE_PRIMES = [3, 5, 7, 11, 13, 8191, 65537, (1 << 31) - 1, (1 << 61) - 1, (1 << 64) - 59, (1 << 64) + 13, (1 << 89) - 1, (1 << 107) - 1, (1 << 127) - 1, (1 << 128) + 51, (1 << 521) - 1]
 def build(spec, env):
     kind = spec[0]; r = random.Random(spec[-1])
     if kind == 'z':
@@ -180,15 +181,19 @@ def build(spec, env):
         if sg & 1: a = -a
         if sg & 2: b = -b
         sa = r.choice([a, gen.val(r, 1)]); sa = max(-(1 << 63), min((1 << 63) - 1, sa)); ua = abs(sa) & M if r.random() < 0.5 else r.getrandbits(64)
+        # mpz_kronecker is documented for every pair; mpz_legendre only for an odd positive prime p (both are aliases of mpz_jacobi today)
+        pl = r.choice(LEGENDRE_PRIMES)
         cmds = ['z Z1 %s' % hx(a), 'z Z2 %s' % hx(b), 'c mpz_jacobi Z1 Z2',
-                'c mpz_kronecker_si Z1 #%d' % sa, 'c mpz_kronecker_ui Z1 #%d' % ua, 'c mpz_si_kronecker #%d Z2' % sa, 'c mpz_ui_kronecker #%d Z2' % ua]
-        def check(rep, a=a, b=b, sa=sa, ua=ua):
+                'c mpz_kronecker_si Z1 #%d' % sa, 'c mpz_kronecker_ui Z1 #%d' % ua, 'c mpz_si_kronecker #%d Z2' % sa, 'c mpz_ui_kronecker #%d Z2' % ua,
+                'c mpz_kronecker Z1 Z2', 'z Z4 %s' % hx(pl), 'c mpz_legendre Z1 Z4']
+        def check(rep, a=a, b=b, sa=sa, ua=ua, pl=pl):
             out = []
-            for idx, fn, x, y in ((2, 'mpz_jacobi', a, b), (3, 'mpz_kronecker_si', a, sa), (4, 'mpz_kronecker_ui', a, ua), (5, 'mpz_si_kronecker', sa, b), (6, 'mpz_ui_kronecker', ua, b)):
+            for idx, fn, x, y in ((2, 'mpz_jacobi', a, b), (3, 'mpz_kronecker_si', a, sa), (4, 'mpz_kronecker_ui', a, ua), (5, 'mpz_si_kronecker', sa, b), (6, 'mpz_ui_kronecker', ua, b),
+                                  (7, 'mpz_kronecker', a, b), (9, 'mpz_legendre', a, pl)):
                 v, _ = split_reply(rep[idx])
                 if int(v[0]) != models.kron(x, y): out.append(('%s:wrong' % fn, 'a=%s b=%s got=%s want=%d' % (hx(x)[:70], hx(y)[:70], v[0], models.kron(x, y))))
             return out
-        return Case(cmds, check, 5, ('kron', mode, an, bn, sg, a % 8, b % 8 if b else 9))
+        return Case(cmds, check, 7, ('kron', mode, an, bn, sg, a % 8, b % 8 if b else 9))
     if kind == 'ui':
         _, an, neg, mode, _s = spec
         u = r.choice([0, 1, 2, r.getrandbits(64), r.getrandbits(r.randint(1, 64)), M, 1 << 63])
